@@ -8,9 +8,18 @@
 (*            in between: Either.                                                              *)
 (*   MATCHER  operational transcription of urllib3's _dnsname_match / _ipaddress_match /        *)
 (*            match_hostname / connection._match_hostname and of ssl_.assert_fingerprint.       *)
-(* TLC checks MATCHER |= RULES on three small state machines (pairs, lists, pins), emits the    *)
-(* reference sets for replay into the real functions, and HostMatch_Trace judges verdicts       *)
-(* recorded from the real functions with the very same RULES operators.                         *)
+(*            MATCHER is parametrised by a set D of named deviations (D13 "ABORT", D14 "ACECASE")*)
+(*            of the code from the design the statement asks for; D = {} is the repaired design, *)
+(*            D = KnownDefects the code as it is.                                               *)
+(* TLC checks on three small state machines (pairs, lists, pins) that the repaired MATCHER      *)
+(* satisfies RULES and that the code-shaped MATCHER leaves RULES exactly on the recorded input  *)
+(* classes; it emits the reference sets for replay into the real functions, and HostMatch_Trace *)
+(* judges verdicts recorded from the real functions with the very same RULES operators.         *)
+(*                                                                                             *)
+(* LATITUDE decisions (each justified where the operator is defined): partial wildcards in the  *)
+(* left-most label, starred / A-label / trailing-dot reference identities, IP literals with a   *)
+(* zone, bracketed literals handed to the raw API (RefKind "other"), SAN lists holding only     *)
+(* other types together with a commonName, partial wildcards over an A-label of the HOST.       *)
 (*                                                                                             *)
 (* A DNS name is a non-empty sequence of labels (what str.split(".") yields); a label is a      *)
 (* sequence of one-character symbols; the empty label is <<>>.  "a." is <<a, <<>>>>, the empty  *)
